@@ -19,7 +19,7 @@ KINDS = [
     (r"unknown function", "eval:unknown_function"), (r"expected \d+ arguments", "eval:arg_count"),
     (r"could not interpolate", "eval:interpolate"), (r"cannot import an already defined symbol", "import_defined"),
     (r"cannot align", "align"), (r"is not a valid name", "invalid_name"), (r"did not converge", "not_converged"),
-    (r"must lie between 0 and \$10000|relocated address would be negative", "pc_range"),   # C06 program-counter range fix
+    (r"must lie between 0 and \$(?:10000|FFFF)|relocated address would be negative", "pc_range"),   # C06 program-counter range fix
     (r"is defined after code was assembled into it", "segment_has_code"),
     (r"overflow", "eval:overflow"), (r"cyclic import", "cyclic_import"),
     (r"cannot loop", "loop_limit"), (r"may be nested at most", "nesting_limit"),
